@@ -11,6 +11,7 @@ def run(ctx, rep):
     bt.check_trans(ctx, rep, 'T-trans-normal', ['Normal'])
     bt.check_trans(ctx, rep, 'T-trans-coincident', ['SameTransition', 'DifferentTransition'])
     bt.check_prop(ctx, rep)
+    bt.check_atom_models(ctx, rep)
     # the tables classify sub-segments: they give the named region only if every segment is split where another one meets it
     pirules.check_endpoint_guards(ctx, rep)
     oprules.check_trivial(ctx, rep)
